@@ -57,6 +57,7 @@ func report(prop, tier string, seed int, results []*harnessResult, loadDur, wall
 	}
 	var inconclusive []string
 	totalPaths, totalInstrs, totalQueries, totalUnknown := 0, 0, 0, 0
+	totalRetries, totalRetryOK := 0, 0
 	crossQueries := 0
 	var crossTime time.Duration
 	var solverTime time.Duration
@@ -73,6 +74,8 @@ func report(prop, tier string, seed int, results []*harnessResult, loadDur, wall
 		totalInstrs += r.instrs
 		totalQueries += r.queries
 		totalUnknown += r.unknowns
+		totalRetries += r.retries
+		totalRetryOK += r.retryOK
 		solverTime += r.solverTime
 		crossQueries += r.crossQueries
 		crossTime += r.crossTime
@@ -358,20 +361,22 @@ func report(prop, tier string, seed int, results []*harnessResult, loadDur, wall
 			"rule":                          "every control-flow path of the harness and the real pion/turn functions it calls is executed symbolically from go/ssa; each obligation (assertion, panic, lock balance, blocking) on each path is one SMT query 'path condition AND NOT obligation'; distinct_nontrivial counts distinct (harness, obligation) pairs that needed at least one solver query; 'decided_without_solver' are instances whose condition folded to a constant",
 			"queries":                       totalQueries,
 			"solver_unknown":                totalUnknown,
-			"solver_time_s":                 solverTime.Seconds(),
-			"load_ssa_s":                    loadDur.Seconds(),
-			"solvers":                       solversUsed(crossQueries),
-			"second_solver_queries":         crossQueries,
-			"second_solver_time_s":          crossTime.Seconds(),
-			"harnesses":                     len(results),
-			"functions_encoded_pion_turn":   turnFuncs,
-			"functions_encoded_total":       len(flist),
-			"stubs_used":                    sortedKeys(stubsUsed),
-			"bounds":                        bounds,
-			"outside_claim":                 outside,
-			"inconclusive":                  inconclusive,
-			"exhaustive":                    false,
-			"explanation":                   "bounded symbolic execution of the real code; unsat = holds for every input within the stated bounds",
+			"unknown_answers_retried_on_fresh_solver": totalRetries,
+			"unknown_answers_decided_by_retry":        totalRetryOK,
+			"solver_time_s":                           solverTime.Seconds(),
+			"load_ssa_s":                              loadDur.Seconds(),
+			"solvers":                                 solversUsed(crossQueries),
+			"second_solver_queries":                   crossQueries,
+			"second_solver_time_s":                    crossTime.Seconds(),
+			"harnesses":                               len(results),
+			"functions_encoded_pion_turn":             turnFuncs,
+			"functions_encoded_total":                 len(flist),
+			"stubs_used":                              sortedKeys(stubsUsed),
+			"bounds":                                  bounds,
+			"outside_claim":                           outside,
+			"inconclusive":                            inconclusive,
+			"exhaustive":                              false,
+			"explanation":                             "bounded symbolic execution of the real code; unsat = holds for every input within the stated bounds",
 		},
 		"assumptions": assumptionsFor(stubsUsed),
 	}
